@@ -104,6 +104,12 @@ func VerifyFunc(p *Program, fc *FuncContract, opts VerifyOpts) (rep *FuncReport)
 	x := NewExec(p)
 	x.top, x.topKey, x.fc = fn, fc.Key(), fc
 	x.fuel = fc.Fuel
+	for _, e := range fc.Exempt {
+		if e == "C09" {
+			x.noC09 = true
+			x.note("C09's SetAccount obligation waived for this function: governance-approved upgrade (declared by `exempt C09`)")
+		}
+	}
 	x.noPanic = (fc.NoPanic || opts.PanicMode) && !opts.NoPanicOff
 	x.panicMode = opts.PanicMode
 	x.panicProps = opts.PanicProps
